@@ -14,7 +14,9 @@ META = {
                  "feedbackmapper.go/handler.go/feedback.go by the translator, (b) a fold of the option table extracted "
                  "(go/ast) from opts.go/engine.go/mirror.go; differential run of the generated model vs the real code "
                  "(every witness replayed in a subprocess: exit status + stderr)",
-    "level": "P/partial. Proved: the feedback mappers are total on every generated handler result and follow the documented classes; "
+    "level": "P/partial. A wedge without a crash is observed, not proved: the mirror harness times every HandleProposedHeader call and a call that "
+             "returns only when its 5 s context expires is reported (mirror-handler-does-not-return). "
+             "Proved: the feedback mappers are total on every generated handler result and follow the documented classes; "
              "constructors New/NewMirror never panic and report every rejected option for EVERY option list; Registry.Unmarshal is "
              "total on every byte string; KERNEL: on the mirror-kernel model (Model/Mirror.v, tied to the real mirror by per-message "
              "correspondence) no proposed header, prevote or precommit message - any height, round, key id, signature, commit proof - "
